@@ -185,6 +185,43 @@ def check_dcm(case, ctx):
                 ctx.le("constructed DCM is a proper rotation", rq.so3_defect(M), 1e-12, {"M": M}, route=r)
                 ctx.ok("object is a DCM", isinstance(out.value, DCM), route=r)
     ctx.le("reference: DCM(q=) equals R(q)", 0.0, 1.0, route="DCM(q=)")
+    # ---- the free constructions, also with a null angle somewhere (exact 0 or whole turns), and the result buffer handed back to the caller:
+    # a caller that goes on computing in place with a matrix it received must not change what the next construction returns
+    from ahrs.common.dcm import rotation, rot_seq
+    seq, angs = str(p["seq"]), [float(a) for a in p["angles"]]
+    null = [0.0, 2 * np.pi, -4 * np.pi, 0.0][int(abs(xyz[0]) * 1e6) % 4]
+    angs0 = list(angs)
+    angs0[int(abs(xyz[1]) * 1e6) % len(angs0)] = null
+    free = {
+        "rotation()": lambda: rotation(seq[0], angs[0]),
+        "rotation()[null angle]": lambda: rotation(seq[0], null),
+        "rotation()[null angle, degrees]": lambda: rotation(seq[0], null and 360.0 * np.sign(null), degrees=True),
+        "rot_seq()": lambda: rot_seq(seq, list(angs)),
+        "rot_seq()[a null angle]": lambda: rot_seq(seq, list(angs0)),
+        "DCM(x,y,z)[a null angle]": lambda: DCM(x=null, y=xyz[1], z=xyz[2]),
+        "DCM(rpy=)[a null angle]": lambda: DCM(rpy=[xyz[0], null, xyz[2]]),
+        "DCM(euler=)[a null angle]": lambda: DCM(euler=(seq, list(angs0))),
+    }
+    for r, fn in free.items():
+        out = call(fn)
+        if not ctx.returned(out, route=r):
+            continue
+        M = as_real_array(ctx, np.asarray(out.value), (3, 3), route=r, what="matrix")
+        if M is None:
+            continue
+        ctx.le("constructed DCM is a proper rotation", rq.so3_defect(M), 1e-12, {"M": M}, route=r)
+        buf = out.value if isinstance(out.value, np.ndarray) else None
+        if buf is not None and buf.flags.writeable:
+            keep = np.array(buf, float)
+            try:
+                np.add(buf, 0.25, out=buf.view(np.ndarray))          # the caller accumulates into what it was given
+                again = call(fn)
+                if ctx.returned(again, route=r, clause="no-exception[after the caller modified an earlier result in place]"):
+                    M2 = np.asarray(again.value, float)
+                    ctx.le("after the caller modified an earlier result in place the construction still returns the same proper rotation",
+                           max(rq.so3_defect(M2), float(np.abs(M2 - keep).max())), 1e-12, {"M2": M2, "first": keep}, route=r)
+            finally:
+                buf.view(np.ndarray)[...] = keep
     out = call(lambda: np.asarray(DCM(x=xyz[0])), )
     if ctx.returned(out, route="DCM(x,y,z)"):
         ctx.le("single-axis keyword gives a proper rotation", rq.so3_defect(np.asarray(out.value, float)), 1e-12, route="DCM(x,y,z)")
